@@ -211,11 +211,13 @@ class Grid2D(GridObject):
         )
 
         if not inverse:
+            # blank with the selection made on this grid: the centroids of the copy
+            # are recomputed from a shifted origin and may round differently
+            inside = selected_centroids[np.ix_(v_ind, u_ind)].flatten()
             for child in copy.children:
                 if isinstance(getattr(child, "values", None), np.ndarray):
-                    indices = child.mask_by_extent(extent, inverse=inverse)
                     values = child.values
-                    values[~indices] = child.nan_value
+                    values[~inside] = child.nan_value
                     child.values = values
 
         return copy
